@@ -706,7 +706,7 @@ class IPPO(MultiAgentRLAlgorithm):
                 ) = get_experiences_samples(minibatch_idxs, *experiences)
                 verif_hooks.record(
                     "ippo.minibatch",
-                    idxs=minibatch_idxs,
+                    idxs=np.array(minibatch_idxs),
                     batch=(
                         batch_states,
                         batch_actions,
